@@ -175,28 +175,4 @@ harnesses! {
             cover!(true, "both decode");
         }
     }
-    /// G7 (C19, concrete vectors pushed through the engine): X25519 per RFC 7748: public_key(a) and DH(a, B) of section 6.1, and
-    /// DH(a, u = 2) — a peer key outside the prime-order subgroup, where "multiply by the clamped integer" and "multiply by
-    /// the scalar reduced mod l" differ (expected values from an independent Montgomery-ladder implementation)
-    fn g7_x25519_dh_vectors [unwind = 260] {
-        let a: [u8; 32] = [0x70, 0x07, 0x6d, 0x0a, 0x73, 0x18, 0xa5, 0x7d, 0x3c, 0x16, 0xc1, 0x72, 0x51, 0xb2, 0x66, 0x45, 0xdf, 0x4c, 0x2f, 0x87, 0xeb, 0xc0, 0x99, 0x2a, 0xb1, 0x77, 0xfb, 0xa5, 0x1d, 0xb9, 0x2c, 0x6a];
-        let apk: [u8; 32] = [0x85, 0x20, 0xf0, 0x09, 0x89, 0x30, 0xa7, 0x54, 0x74, 0x8b, 0x7d, 0xdc, 0xb4, 0x3e, 0xf7, 0x5a, 0x0d, 0xbf, 0x3a, 0x0d, 0x26, 0x38, 0x1a, 0xf4, 0xeb, 0xa4, 0xa9, 0x8e, 0xaa, 0x9b, 0x4e, 0x6a];
-        let bpk: [u8; 32] = [0xde, 0x9e, 0xdb, 0x7d, 0x7b, 0x7d, 0xc1, 0xb4, 0xd3, 0x5b, 0x61, 0xc2, 0xec, 0xe4, 0x35, 0x37, 0x3f, 0x83, 0x43, 0xc8, 0x5b, 0x78, 0x67, 0x4d, 0xad, 0xfc, 0x7e, 0x14, 0x6f, 0x88, 0x2b, 0x4f];
-        let k: [u8; 32] = [0x4a, 0x5d, 0x9d, 0x5b, 0xa4, 0xce, 0x2d, 0xe1, 0x72, 0x8e, 0x3b, 0xf4, 0x80, 0x35, 0x0f, 0x25, 0xe0, 0x7e, 0x21, 0xc9, 0x47, 0xd1, 0x9e, 0x33, 0x76, 0xf0, 0x9b, 0x3c, 0x1e, 0x16, 0x17, 0x42];
-        let k2: [u8; 32] = [0xe8, 0x0c, 0x0b, 0xe9, 0xd3, 0xa1, 0xc5, 0xd7, 0x1e, 0xdd, 0x63, 0x16, 0xe8, 0xc9, 0x11, 0x5c, 0xa3, 0x53, 0x97, 0xcd, 0x47, 0x10, 0x9b, 0xd3, 0x8e, 0x32, 0x86, 0x4f, 0x1a, 0xde, 0xcf, 0x4d];
-        let mut u2 = [0u8; 32];
-        u2[0] = 2;
-        let sk = Curve25519::deserialize_sk(&a);
-        check!(sk.is_ok(), "clamped RFC 7748 private key decodes");
-        let Ok(sk) = sk else { return };
-        check!(eq_bytes(&Curve25519::serialize_pk(Curve25519::public_key(sk)), &apk), "public_key(a) == X25519(a, 9) (RFC 7748 6.1)");
-        if let Ok(pb) = Curve25519::deserialize_pk(&bpk) {
-            check!(eq_bytes(&Curve25519::diffie_hellman(pb, sk), &k), "DH(a, B) == RFC 7748 6.1 shared secret");
-            cover!(true, "rfc vector");
-        }
-        if let Ok(p2) = Curve25519::deserialize_pk(&u2) {
-            check!(eq_bytes(&Curve25519::diffie_hellman(p2, sk), &k2), "DH(a, u=2) == X25519(a, 2): the clamped integer multiplies the peer key, also outside the prime-order subgroup");
-            cover!(true, "mixed-order peer");
-        }
-    }
 }
